@@ -111,7 +111,7 @@ func (c *codegen) reflOf(name string) *reflInfo {
 func (c *codegen) reflFail(ri *reflInfo, n ast.Node, format string, a ...interface{}) {
 	fmt.Fprintf(os.Stderr, "extract: reflective helper %s (%s): unsupported construct: %s\n",
 		ri.name, c.pos(n), fmt.Sprintf(format, a...))
-	os.Exit(2)
+	refuse() // code_topics.go: the refusal is per topic, not per run
 }
 
 func strArg(e ast.Expr) (string, bool) {
